@@ -14,11 +14,13 @@ RULE = ("generated object graphs (lists, tuples, sets, dicts, plain objects; nes
         "py/id numbering and the decoded graph's shape compared in Coq; (rec) stored in a MemoryRecording and read "
         "twice; (cas) saved to and fetched from the in-memory, file and S3 cassettes along a random history of lookups, "
         "fetches and in-place mutations; (play) recorded through TapeRecorder and replayed several times while the "
-        "replayed code mutates what it is handed; (copy) intercepted with copy-on-interception on and off, with and without an input data handler whose recorded form embeds live call arguments (out-parameter, request object), under every way the recording comes to be saved (sampling rate 0 / in between / 1, force_sample_recording() called before, inside or after the interception, after the in-place mutation or at the end of the operation - a probe stream that always runs enumerates rate x enforcement point x handler).  The direct "
+        "replayed code mutates what it is handed; (copy) intercepted with copy-on-interception on and off, with and without an input data handler whose recorded form embeds live call arguments (out-parameter, request object), under every way the recording comes to be saved (sampling rate 0 / in between / 1, force_sample_recording() called before, inside or after the interception, after the in-place mutation or at the end of the operation - a probe stream that always runs enumerates rate x enforcement point x handler); (rec, stream unser) values with a leaf the serializer refuses, whose copy cannot be made; (deep) reads made at EVERY remaining stack headroom - the copy needs stack of its own, so for every value there is a band of headrooms below the recursion limit in which it cannot be completed: a probe stream that always runs enumerates headroom 1, 2, 3, .. frames until the read succeeded 8 times in a row, for get_data / __getitem__ of a MemoryRecording and of a recording fetched from each cassette, for get_recording itself, and for every way a replay hands recorded values to replayed code that recurses before asking (plain input, pass-through data handler, play_data, output result, recorded exception; one replay per headroom), on flat, generated and 3-40 level nested values: a read may fail there, it never hands out the stored object graph.  The direct "
         "predicate walks the real objects by id() (no shared mutable node between handed-out value and store / other "
         "hand-outs) and compares order-insensitive snapshots before and after the mutations.  non-trivial = at least "
         "one mutable container in a handed-out value; distinct = distinct case")
-ASSUMPTIONS = ["json.loads(json.dumps(x)) is the identity on the JSON produced by the pickler (the model's pickle_copy "
+ASSUMPTIONS = ["the interpreter's recursion limit is the only stack bound exercised (CPython 3.12 counts Python frames; jsonpickle is pure "
+               "Python); the deep stream measures its own depth and burns frames with a plain recursive helper",
+               "json.loads(json.dumps(x)) is the identity on the JSON produced by the pickler (the model's pickle_copy "
                "passes the AST, the code passes text)",
                "quoted-printable for bytes is an oracle; Coq evaluates only byte strings on which the simple codec is exact",
                "classes named in py/object can be imported when decoding",
@@ -161,6 +163,12 @@ def generate(rng, tier):
         cases.append(dict(kind="rec", data=[[k, value_graph(rng, big=rng.random() < 0.3)]
                                             for k in rng.sample(["k", "input: a", "x y", "é"], n)],
                           script=rand_script(rng)))
+    for _ in range(6 if q else 60):
+        # values with a leaf the serializer refuses: the copy cannot be made, the read may fail - or hand out a fresh copy
+        cases.append(dict(kind="rec", stream="unser", script=rand_script(rng),
+                          data=[["k", gen_graph(rng, size=6, depth=2, unser=0.3, empty_obj=0.0, reserved_keys=0.0,
+                                                root_kind=rng.choice(["list", "dict", "obj", "tuple"]))],
+                                ["input: a", _g([L(R(1), {"t": "unser", "v": 1}), D(("x", pv.i(1)))])]]))
     for _ in range(14 if q else 200):
         for ctype in CTYPES:
             steps = [rng.choice(["lookup", "lookup_meta", "fetch2", "mutate_fetch", "mutate_read", "metadata_api"])
@@ -198,6 +206,7 @@ def generate(rng, tier):
             c["force"] = rng.choice(FORCE_POINTS) if (c["rate"] == 0 or rng.random() < 0.5) else None
         cases.append(c)
     cases += sampling_probes(rng)
+    cases += deep_probes(rng, tier)
     return cases
 
 
@@ -218,6 +227,51 @@ def sampling_probes(rng):
                                 vout=_g([D(("rows", R(1))), L(pv.i(1), pv.i(2))]), script=[[0, 1], [1, 3]],
                                 hform=hform, via="arg", static=False, rate=rate, rseed=rng.randrange(1000), force=force,
                                 vbuf=_g([L(R(1)), D(("x", pv.i(1)))]), vreq=_g([D(("q", R(1))), L(pv.i(1))])))
+    return out
+
+
+def nested_graph(levels, kind="dict"):
+    """An ordinary nested configuration: `levels` levels of dict -> dict (or object -> object / list -> list), each with a
+    small list beside the child, a dict with a list at the bottom."""
+    heap = []
+    for i in range(levels):
+        child, tags = {"l": 2 * i + 2}, {"l": 2 * i + 1}
+        if kind == "dict":
+            heap.append(D(("child", child), ("tags", tags)))
+        elif kind == "obj":
+            heap.append(O(("x", child), ("items", tags)))
+        else:
+            heap.append(L(child, tags))
+        heap.append(L(pv.s("level-%d" % i)))
+    heap.append(D(("leaf", {"l": 2 * levels + 1})))
+    heap.append(L(pv.i(1), pv.i(2), pv.i(3)))
+    return _g(heap)
+
+
+def deep_probes(rng, tier):
+    """Reads at every remaining stack headroom (always run, both tiers).  The copy a read makes needs stack of its own, so for
+    every value there is a band of headrooms (tens to a few hundred frames below the recursion limit) in which the copy cannot be
+    completed; the driver ENUMERATES the headrooms h = 1, 2, ... until the read has succeeded 8 times in a row, for get_data and
+    __getitem__ of a MemoryRecording ("rec"), of a recording fetched from each cassette and the fetch itself ("cas"), and for
+    every way a replay hands a recorded value to replayed code that recurses before asking ("play": plain input, input with
+    a pass-through data handler, play_data, output result, recorded exception).  Values: flat, generated, and deeply nested
+    ones (the band grows by ~4 frames per nesting level)."""
+    out = []
+    flat = _g([L(pv.i(3), pv.i(1), pv.i(2))])
+    small = _g([D(("rows", R(1)), ("o", R(2))), L(pv.i(1), R(2)), O(("x", R(3))), L(pv.s("a"))])
+    for k, n in enumerate((12, 40)):
+        kind = ("dict", "obj", "list")[k % 3]
+        out.append(dict(kind="deep", path="rec", data=[["flat", flat], ["input: small", small], ["nested", nested_graph(n, kind)],
+                                                       ["gen", value_graph(rng, big=True)]],
+                        script=[[0, 0], [1, 1], [2, 6]] + rand_script(rng)))
+    for k, ctype in enumerate(CTYPES):
+        out.append(dict(kind="deep", path="cas", ctype=ctype,
+                        data=[["k", small if k else flat], ["input: n", nested_graph(6 + 3 * k, ("obj", "list", "dict")[k])]],
+                        meta=meta_graph(rng), script=[[0, 0], [1, 6]] + rand_script(rng)))
+    for k, ctype in enumerate(CTYPES if tier != "quick" else CTYPES[:2]):
+        out.append(dict(kind="deep", path="play", ctype=ctype,
+                        vin=[small, nested_graph(8, "dict"), value_graph(rng)][k], vout=[flat, small, value_graph(rng)][k],
+                        vdata=[nested_graph(3, "list"), flat, small][k], script=[[0, 0], [1, 6]] + rand_script(rng)))
     return out
 
 
@@ -381,6 +435,8 @@ def direct(case, obs):
                         f.append(("play-%s-later-replay-differs" % t, "replay %d (after %s, and after mutating everything replay %d handed out) "
                                   "observes different %s: %s -> %s" % (i, p["pre"], i - 1, name, str(p0[name])[:300], str(p[name])[:300])))
                         break
+    elif kind == "deep":
+        f += direct_deep(case, obs)
     elif kind == "copy":
         if not obs.get("saved", True) and not must_be_saved(case):
             return f                    # not sampled (rate < 1, not enforced): no recording, nothing is claimed
@@ -406,6 +462,58 @@ def direct(case, obs):
     return f
 
 
+def _band(o):
+    return "outcome per stack headroom [from, to, outcome]: %s" % (o["outcomes"],)
+
+
+def direct_deep(case, obs):
+    """A read / fetch / injection made with ANY stack headroom either fails or hands out a fresh copy."""
+    f = []
+    path = case["path"]
+    where = path if path == "rec" else "%s-%s" % (path, case["ctype"])
+    for o in obs.get("keys", []):
+        if "skipped" in o:
+            continue
+        for name in ("get_data", "getitem"):
+            if name not in o:
+                continue
+            r = o[name]
+            b = r["bad"]
+            if "share" in b:
+                f.append(("deep-%s-read-shares-stored" % where, "key %r: %s called with %d frames of stack left handed out the stored "
+                          "object itself (%s / %s; %d mutable nodes shared) instead of failing or copying; %s" %
+                          (o["key"], name, b["share"]["h"], b["share"].get("in_a"), b["share"].get("in_b"), b["share"]["n"], _band(r))))
+            if "altered" in b:
+                a = b["altered"]
+                f.append(("deep-%s-later-read-differs" % where, "key %r: after mutating what %s handed out with %d frames of stack left, "
+                          "a later read differs: %s -> %s (stored %s -> %s)" %
+                          (o["key"], name, a["h"], a["first_read"], a["later_read"], a["stored_before"], a["stored_after"])))
+    if "fetch" in obs:
+        b = obs["fetch"]["bad"]
+        if "share" in b:
+            f.append(("deep-%s-fetch-shares" % where, "get_recording called with %d frames of stack left returned a recording that shares "
+                      "%r with an earlier fetch / the saved object / the cassette; %s" % (b["share"]["h"], b["share"], _band(obs["fetch"]))))
+        if "altered" in b:
+            f.append(("deep-%s-later-fetch-differs" % where, "after mutating what get_recording returned with %d frames of stack left a "
+                      "fresh fetch differs: %s -> %s" % (b["altered"]["h"], b["altered"]["saved"], b["altered"]["later"])))
+    if path == "play" and "bad" in obs:
+        b = obs["bad"]
+        if "share" in b:
+            f.append(("deep-%s-injected-shares-recording" % where, "replayed code that asked for %r with %d frames of stack left was handed "
+                      "an object of the playback recording itself (%s / %s); %s" %
+                      (b["share"]["tag"], b["share"]["h"], b["share"].get("in_a"), b["share"].get("in_b"),
+                       _band(obs["tags"][b["share"]["tag"]]))))
+        if "second" in b:
+            f.append(("deep-%s-second-injection-sees-mutation" % where, "replayed code mutated what it was handed for %r with %d frames of "
+                      "stack left; the next request of the same key returns %s, recorded was %s" %
+                      (b["second"]["tag"], b["second"]["h"], b["second"]["second"], b["second"]["recorded"])))
+        if "recording" in b:
+            f.append(("deep-%s-recording-altered-by-replay" % where, "after the replay that read with %d frames of stack left, %s differs "
+                      "from the recording: %s -> %s" % (b["recording"]["h"], b["recording"]["which"], b["recording"]["before"],
+                                                        b["recording"]["after"])))
+    return f
+
+
 def must_be_saved(case):
     """The recording of a copy case is certainly saved: default / full sampling rate, or sampling enforced by the operation."""
     rate = case.get("rate")
@@ -428,7 +536,7 @@ def shrink_candidates(case):
         c = dict(case)
         c["script"] = []
         out.append(c)
-    if case["kind"] in ("rec", "cas") and len(case["data"]) > 1:
+    if case["kind"] in ("rec", "cas", "deep") and len(case.get("data", [])) > 1:
         for i in range(len(case["data"])):
             c = dict(case)
             c["data"] = case["data"][:i] + case["data"][i + 1:]
@@ -458,8 +566,10 @@ def _graphs(case):
     k = case["kind"]
     if k == "codec":
         return [case["graph"]]
-    if k in ("rec", "cas"):
+    if k in ("rec", "cas") or (k == "deep" and "data" in case):
         return [g for _, g in case["data"]]
+    if k == "deep":
+        return [case["vin"], case["vout"], case["vdata"]]
     if k == "play":
         return [case["vin"], case["vout"], case["vdata"]]
     return [case["vin"], case["vout"]] + [case[k] for k in ("vbuf", "vreq") if k in case]
@@ -475,12 +585,29 @@ def _has_sharing(g):
     return any(v > 1 for v in cnt.values())
 
 
+def _nesting(g):
+    """longest chain of containers below the root (acyclic graphs)"""
+    memo = {}
+
+    def go(i, seen):
+        if i in memo:
+            return memo[i]
+        if i in seen:
+            return 0
+        nd = g["heap"][i]
+        refs = nd["v"] if nd["k"] in ("list", "tuple", "set") else [c for _, c in nd["v"]]
+        d = 1 + max([go(r["l"], seen | {i}) for r in refs if hg.is_loc(r)] or [0])
+        memo[i] = d
+        return d
+    return go(g["root"]["l"], frozenset())
+
+
 def features(case):
     f = {"kind:" + case["kind"]}
     if "ctype" in case:
         f.add("%s:%s" % (case["kind"], case["ctype"]))
     if "stream" in case:
-        f.add("codec:" + case["stream"])
+        f.add(("codec:" if case["kind"] == "codec" else case["kind"] + "-stream:") + case["stream"])
     for g in _graphs(case):
         f.add("root:" + g["heap"][g["root"]["l"]]["k"])
         for nd in g["heap"]:
@@ -491,6 +618,11 @@ def features(case):
         f.add("step:" + s)
     for s in case.get("pre_steps", []):
         f.add("before-replay:" + s)
+    if case["kind"] == "deep":
+        f.add("deep:" + case["path"])
+        f.add("read-at-every-stack-headroom")
+        depth = max(_nesting(g) for g in _graphs(case))
+        f.add("deep-value-nesting:%s" % ("1-3" if depth <= 3 else "4-15" if depth <= 15 else "16+"))
     if case["kind"] == "copy":
         f.add("copy-flag:%s" % case["copy"])
         f.add("data-handler:%s" % case.get("hform"))
@@ -510,7 +642,7 @@ def nontrivial(case):
 
 MANIFEST = dict(
     design_ref='6/C11',
-    text="Coq theorems on a heap model where identity and in-place mutation are expressible (locations, list/tuple/set/dict/object nodes): decode allocates only new locations (the old heap is a prefix, everything reachable from the result is new); a get_data result is such a decode of the stored datum's encoding, and for EVERY heap that agrees with the old one on the old locations - in particular after any sequence of in-place mutations and allocations made through the handed-out value (mutation locality + closure theorem) - the stored datum and the whole recording encode exactly as before; cassettes hold text, two fetches of one id occupy disjoint location ranges and mutating one changes neither the other nor a later fetch; with copy-on-interception the recorded value is a decode of the result's encoding at capture and later mutation of the result leaves its encoding unchanged, with the flag off a concrete example shows the recording does change (documented aliasing); a copy re-encodes to the same JSON, so reads and copy-on recordings are faithful (three _partial theorems: proved for canonical encodings without py/id, i.e. no list/object met twice; false with py/id, witness example).  The model (jsonpickle 0.9.3 encode incl. py/id numbering, decode incl. id table and the second restore pass over object state) is tied to /repo on every run by comparing exact encode text, decoded graph shape and re-encode text for generated graphs with sharing and cycles.  Direct predicate on the real MemoryRecording, TapeRecorder.play, recorded_outputs, copy-on-interception (for every sampling rate / enforced-sampling point under which the recording is saved) and all three cassettes: id()-walk disjointness of mutable nodes between every handed-out value and the store / other hand-outs, then scripted in-place mutation through every reachable mutable node and re-read / re-fetch / re-play comparison.",
+    text="Coq theorems on a heap model where identity and in-place mutation are expressible (locations, list/tuple/set/dict/object nodes): decode allocates only new locations (the old heap is a prefix, everything reachable from the result is new); a get_data result is such a decode of the stored datum's encoding, and for EVERY heap that agrees with the old one on the old locations - in particular after any sequence of in-place mutations and allocations made through the handed-out value (mutation locality + closure theorem) - the stored datum and the whole recording encode exactly as before; cassettes hold text, two fetches of one id occupy disjoint location ranges and mutating one changes neither the other nor a later fetch; with copy-on-interception the recorded value is a decode of the result's encoding at capture and later mutation of the result leaves its encoding unchanged, with the flag off a concrete example shows the recording does change (documented aliasing); a copy re-encodes to the same JSON, so reads and copy-on recordings are faithful (three _partial theorems: proved for canonical encodings without py/id, i.e. no list/object met twice; false with py/id, witness example).  The model (jsonpickle 0.9.3 encode incl. py/id numbering, decode incl. id table and the second restore pass over object state) is tied to /repo on every run by comparing exact encode text, decoded graph shape and re-encode text for generated graphs with sharing and cycles.  Direct predicate on the real MemoryRecording, TapeRecorder.play, recorded_outputs, copy-on-interception (for every sampling rate / enforced-sampling point under which the recording is saved) and all three cassettes - at ordinary stack depth and, enumerated frame by frame, at every stack headroom at which the copy a read has to make cannot be completed (a read may raise there, never hand out the stored object) - : id()-walk disjointness of mutable nodes between every handed-out value and the store / other hand-outs, then scripted in-place mutation through every reachable mutable node and re-read / re-fetch / re-play comparison.",
     note='Trusted: Coq kernel + vm_compute; hand-written heap model of jsonpickle 0.9.3 on py3.12 for lists/tuples/sets/str-keyed dicts/plain objects (custom __getstate__/__reduce__ classes, non-str keys, exceptions are outside the model and covered by the direct predicate only); json.dumps/json.loads taken as inverse on pickler output; quoted-printable oracle.  Round trip of a copy is proved for id-free encodings only (partial): with shared lists/objects jsonpickle itself mis-resolves py/id after an object whose state holds a list (model reproduces it; a fidelity matter of C07, not independence).  Output arguments are never copied even with copy-on (flag covers intercepted return values): observation, not claimed.',
     technique='Coq proof (fuel induction over a heap model with explicit locations; locality/frame lemmas) + exact-text and graph-shape correspondence by vm_compute + id()-based aliasing walk and mutate/re-read/re-fetch/re-play differential run on the real classes',
 )
